@@ -166,8 +166,10 @@ show("color", lambda: (cee.nextColor(cee.RED), cee.nextColor(cee.GREEN), cee.nex
 show("over", lambda: (cee.over(4), cee.over(-1.5)))
 show("dflt", lambda: (cee.dflt(3), cee.dflt(3, 4), cee.dflt(3, b=5), cee.dflt(a=6)))
 show("tmpl", lambda: (cee.tmpl(41), cee.tmpl(1.25)))
+show("weigh", lambda: (cee.weigh(3, 2.5), cee.weigh(count=3, scale=0.5)))
 show("order", lambda: (cee.order(1, 2.5, "three", True), cee.order(d=False, c="", b=-2.5, a=-1)))
 show("ns", lambda: cee.ns.nsf(1))
+show("dims", lambda: (cee.halo(1, 3), cee.halo(m=2, n=2), cee.nodes(1, 3), cee.nodes(2, 2), cee.halo(0, 1)))
 show("total", lambda: (cee.total([1, 2, 3]), cee.total([1.5, 2.0]), cee.total([1, 2, 3.5]), cee.total(v=[0.25, 0.25]), cee.total([])))
 show("over-kw", lambda: (cee.over(a=7), cee.over(a=0.5), cee.tmpl(a=2)))
 show("bad-add", lambda: a.add("x"))
@@ -220,7 +222,8 @@ def python_scenario(args):
     D = A.NATIVE["double"]
     exp_obs = ["OBS ids -> (5, 9)", "OBS add -> (8, 13, 4)", "OBS twice -> (42, 4)", "OBS rename -> (None, None)", "OBS names -> ('', 'bee')",
                "OBS find -> (100, 101)", "OBS new -> (7, 8, True)", "OBS color -> (3, 4, 0)", "OBS over -> (None, None)", "OBS dflt -> (32, 34, 35, 62)",
-               "OBS tmpl -> (42, 2.5)", "OBS order -> (None, None)", "OBS ns -> 2", "OBS total -> (6, 3.5, 6.5, 0.5, 0)", "OBS over-kw -> (None, None, 3)", "OBS bad-add raises TypeError/ValueError",
+               "OBS tmpl -> (42, 2.5)", "OBS weigh -> (7.5, 1.5)", "OBS order -> (None, None)", "OBS ns -> 2", "OBS dims -> (%r, %r, %r, %r, %r)" % (list(range(100, 109)), list(range(100, 108)), list(range(200, 208)), list(range(200, 209)), [100, 101]),
+               "OBS total -> (6, 3.5, 6.5, 0.5, 0)", "OBS over-kw -> (None, None, 3)", "OBS bad-add raises TypeError/ValueError",
                "OBS bad-ctor raises TypeError/ValueError", "OBS bad-over raises TypeError/ValueError", "OBS bad-extra raises TypeError/ValueError",
                "OBS bad-kw raises TypeError/ValueError"]
     exp_recv = ["RECV Cls::Cls id=5", "RECV Cls::Cls id=9", "RECV Cls::add this=5 x=3", "RECV Cls::add this=9 x=4", "RECV Cls::add this=5 x=-1",
@@ -231,8 +234,9 @@ def python_scenario(args):
                 "RECV over(int) a=4", "RECV over(double) a=" + A.rnd(D, -1.5),
                 "RECV dflt a=3 b=2", "RECV dflt a=3 b=4", "RECV dflt a=3 b=5", "RECV dflt a=6 b=2",
                 "RECV tmpl<int> a=41", "RECV tmpl<double> a=" + A.rnd(D, 1.25),
+                "RECV weigh<int,double> count=3 scale=" + A.rnd(D, 2.5), "RECV weigh<int,double> count=3 scale=" + A.rnd(D, 0.5),
                 "RECV order a=1 b=%s c=5:[three] d=1" % A.rnd(D, 2.5), "RECV order a=-1 b=%s c=0:[] d=0" % A.rnd(D, -2.5),
-                "RECV ns::nsf a=1", "RECV total(int) n=3", "RECV total(double) n=2", "RECV total(double) n=3", "RECV total(double) n=2", "RECV total(int) n=0",
+                "RECV ns::nsf a=1", "RECV halo n=1 m=3", "RECV halo n=2 m=2", "RECV nodes n=1 m=3", "RECV nodes n=2 m=2", "RECV halo n=0 m=1", "RECV total(int) n=3", "RECV total(double) n=2", "RECV total(double) n=3", "RECV total(double) n=2", "RECV total(int) n=0",
                 "RECV over(int) a=7", "RECV over(double) a=" + A.rnd(D, 0.5), "RECV tmpl<int> a=2"]
     errs = []
     if rc != 0:
